@@ -17,8 +17,10 @@ import (
 	"sort"
 	"strconv"
 	"strings"
+	"time"
 	"unicode"
 	"unicode/utf8"
+	"unsafe"
 
 	"golang.org/x/tools/go/ssa"
 )
@@ -1600,6 +1602,11 @@ func mRegexpMatchString(ex *Exec, args []Val) Val {
 // ---------------------------------------------------------------- native fallbacks (all arguments concrete)
 
 var nativeFns = map[string]interface{}{
+	"time.Date":              time.Date,
+	"time.Unix":              time.Unix,
+	"time.UnixMilli":         time.UnixMilli,
+	"time.Parse":             time.Parse,
+	"time.ParseDuration":     time.ParseDuration,
 	"strings.ToUpper":        strings.ToUpper,
 	"strings.ToLower":        strings.ToLower,
 	"strings.Title":          strings.Title,
@@ -1676,12 +1683,77 @@ var nativeFns = map[string]interface{}{
 	"unicode.ToLower":        unicode.ToLower,
 }
 
+// nativeRecv: receiver types whose methods run natively on concrete values
+var nativeRecv = map[string]bool{"time.Time": true, "time.Duration": true, "time.Month": true, "time.Weekday": true}
+
+var timeT = reflect.TypeOf(time.Time{})
+
+// nativeTime: a time.Time held as Native, or as the zero-initialised struct the executor makes
+// for `var t time.Time` (wall, ext, loc) with concrete fields and no location.
+func nativeTime(v Val) (time.Time, bool) {
+	switch x := v.(type) {
+	case Native:
+		t, ok := x.V.(time.Time)
+		return t, ok
+	case Struct:
+		if len(x) == 3 {
+			w, ok1 := x[0].(Int)
+			e, ok2 := x[1].(Int)
+			l, ok3 := x[2].(Ptr)
+			if ok1 && ok2 && ok3 && w.T == nil && e.T == nil && l.P == nil {
+				raw := struct {
+					wall uint64
+					ext  int64
+					loc  *time.Location
+				}{w.C, e.signed(), nil}
+				return *(*time.Time)(unsafe.Pointer(&raw)), true
+			}
+		}
+	}
+	return time.Time{}, false
+}
+
 func (ex *Exec) tryNativeCall(name string, fn *ssa.Function, args []Val) (Val, bool) {
 	nf, ok := nativeFns[name]
-	if !ok || nf == nil {
+	var rf reflect.Value
+	if (!ok || nf == nil) && strings.HasPrefix(name, "(") && len(args) > 0 {
+		// a method of an allow-listed receiver type: looked up on the real value
+		end := strings.Index(name, ").")
+		if end < 0 || !nativeRecv[strings.TrimPrefix(name[1:end], "*")] || strings.HasPrefix(name, "(*") {
+			return nil, false
+		}
+		var recv reflect.Value
+		switch name[1:end] {
+		case "time.Time":
+			t, ok := nativeTime(args[0])
+			if !ok {
+				unsupported("%s on a time value that is not concrete", name)
+			}
+			recv = reflect.ValueOf(t)
+		default:
+			i, ok := args[0].(Int)
+			if !ok || i.T != nil {
+				unsupported("%s on a symbolic value", name)
+			}
+			switch name[1:end] {
+			case "time.Duration":
+				recv = reflect.ValueOf(time.Duration(i.signed()))
+			case "time.Month":
+				recv = reflect.ValueOf(time.Month(i.signed()))
+			default:
+				recv = reflect.ValueOf(time.Weekday(i.signed()))
+			}
+		}
+		rf = recv.MethodByName(name[end+2:])
+		if !rf.IsValid() {
+			return nil, false
+		}
+		args = args[1:]
+	} else if !ok || nf == nil {
 		return nil, false
+	} else {
+		rf = reflect.ValueOf(nf)
 	}
-	rf := reflect.ValueOf(nf)
 	rt := rf.Type()
 	if rt.NumIn() != len(args) || rt.IsVariadic() {
 		return nil, false
@@ -1718,8 +1790,32 @@ func (ex *Exec) tryNativeCall(name string, fn *ssa.Function, args []Val) (Val, b
 				unsupported("%s on an unknown float", name)
 			}
 			in[i] = reflect.ValueOf(x.V).Convert(pt)
+		case Native:
+			in[i] = reflect.ValueOf(x.V)
+		case Struct:
+			if pt != timeT {
+				return nil, false
+			}
+			t, ok := nativeTime(x)
+			if !ok {
+				unsupported("%s on a time value that is not concrete", name)
+			}
+			in[i] = reflect.ValueOf(t)
+		case Ptr:
+			// *time.Location: only the nil location, which Go itself reads as UTC (the executor does
+			// not run package time's initialisation, so time.UTC is nil here)
+			if pt != reflect.TypeOf((*time.Location)(nil)) || x.P != nil {
+				return nil, false
+			}
+			in[i] = reflect.ValueOf(time.UTC)
 		default:
 			return nil, false
+		}
+		if !in[i].Type().AssignableTo(pt) {
+			if !in[i].Type().ConvertibleTo(pt) {
+				return nil, false
+			}
+			in[i] = in[i].Convert(pt)
 		}
 	}
 	outs := rf.Call(in)
@@ -1737,6 +1833,14 @@ func (ex *Exec) tryNativeCall(name string, fn *ssa.Function, args []Val) (Val, b
 			return Float{V: v.Float(), W: 64}
 		case reflect.Int64:
 			return cint(v.Int(), 64, true)
+		case reflect.Struct:
+			if v.Type() == timeT {
+				return Native{V: v.Interface()}
+			}
+		case reflect.Uint, reflect.Uint8, reflect.Uint16, reflect.Uint32, reflect.Uint64:
+			return cint(int64(v.Uint()), uint8(v.Type().Bits()), false)
+		case reflect.Int8, reflect.Int16:
+			return cint(v.Int(), uint8(v.Type().Bits()), true)
 		case reflect.Interface:
 			if v.IsNil() {
 				return nil
